@@ -13,6 +13,7 @@
    invoke f=fn|fptr|lam|fob|memfn|memdata c=Q o=obj|refw|ptr|der|dptr x=[..] xc=[..] v=N   -> r=N log=L
    fref   f=fn|fptr|lam|fob c=0|1 act=call|copy x=[..] xc=[..]   -> r=N log=L cp=N
    ifn2   x=[a,b,c] xc=[q]                                       -> r=N log=L cp=N
+   ifn2   f=memfn x=[a] | f=memdata x=[] v=N   (inplace_function around a pointer to member)   -> r=N log=L cp=0
    rw     cst=0|1 act=call|copy|rebind x=[..] xc=[..]            -> r=N log=L
    bf     f=fob|fn q=Q bl=0|1 b=[..] [br=[0|1,..]] [act=call|copy|move] x=[..] xc=[..]   -> r=N log=L bcp=N
           br[i]=1: bound argument i is handed over as ref(object); act: the wrapper called is the original,
@@ -275,6 +276,17 @@ def step (st : DState) (l : Line) : DState × String :=
       | none => bad
     | _, _, _ => bad
   | "fref" | "ifn2" =>
+    if l.op == "ifn2" && (l.str? "f").isSome then
+      -- an owning wrapper around a pointer to member (the object is the first parameter of the signature, an lvalue)
+      match l.str? "f", l.list? "x", l.int? "v" with
+      | some "memfn", some x, _ =>
+        let f (p : Int × Log) : String := fmtRL (strip p) ++ " cp=0"
+        out (fmtE f (functionRefCall (.memfn 5 (.obj .l)) (valArgs x))) (f (Spec.functionRefCall (.memfn 5 (.obj .l)) (valArgs x)))
+      | some "memdata", some x, some v =>
+        let f (p : Int × Log) : String := fmtRL p ++ " cp=0"
+        out (fmtE f (functionRefCall (.memdata (.obj .l) v) (valArgs x))) (f (Spec.functionRefCall (.memdata (.obj .l) v) (valArgs x)))
+      | _, _, _ => bad
+    else
     match l.list? "x", cats? l "xc" with
     | some x, some xc =>
       let f := if l.op == "ifn2" then "fob" else (l.str? "f").getD "?"
